@@ -42,6 +42,11 @@ type Plan struct {
 	CleanupMin int64  `json:"cleanup_min"`
 	Truncate   bool   `json:"truncate"` // enumerate truncation points after every store
 	ZeroLen    bool   `json:"zero_len,omitempty"`
+	// Crash: kill states at every I/O point of every operation (and torn
+	// writes between two I/O points), each reopened, judged and continued with
+	// the next operations of the plan ("second life")
+	Crash     bool   `json:"crash,omitempty"`
+	CrashSeed uint64 `json:"crash_seed,omitempty"`
 }
 
 type Engine struct{}
@@ -63,7 +68,17 @@ func (Engine) Generate(prop, tier string, seed, run uint64) json.RawMessage {
 		p.CleanupMin = int64(32 + r.IntN(3000))
 	}
 	p.ZeroLen = r.IntN(10) == 0
+	p.Crash = r.IntN(3) != 0
+	p.CrashSeed = r.Uint64()
 	n := 3 + r.IntN(25)
+	// swarm: per-run operation mix (store-heavy, invalidate-heavy, reset-heavy)
+	wInv, wReset := 15, 16
+	switch r.IntN(4) {
+	case 0:
+		wInv = 17 // many invalidations: free space in front of live records
+	case 1:
+		wReset = 17 // resets followed by more stores
+	}
 	cts := []string{"", "", "", "text/plain", "application/json", "x"}
 	for i := 0; i < n; i++ {
 		switch k := r.IntN(20); {
@@ -97,13 +112,13 @@ func (Engine) Generate(prop, tier string, seed, run uint64) json.RawMessage {
 				}
 			}
 			p.Ops = append(p.Ops, op)
-		case k < 15:
+		case k < wInv:
 			op := Op{K: "invalidate"}
 			for j := 0; j < 1+r.IntN(3); j++ {
 				op.IDs = append(op.IDs, uint64(r.IntN(9)))
 			}
 			p.Ops = append(p.Ops, op)
-		case k < 16:
+		case k < wReset:
 			p.Ops = append(p.Ops, Op{K: "reset"})
 		default:
 			p.Ops = append(p.Ops, Op{K: "reopen"})
@@ -137,78 +152,97 @@ func compare(c *converters.VerifCache, model map[uint64][]mchunk, what string) s
 	}
 	for id := uint64(0); id < 10; id++ {
 		want, ok := model[id]
-		if c.Contains(id) != ok {
-			return fmt.Sprintf("contains|%s: Contains(%d)=%v, model %v", what, id, !ok, ok)
-		}
-		data, cb, sb, err := c.Data(id, base)
-		if err != nil {
-			return fmt.Sprintf("read-error|%s: Data(%d): %v", what, id, err)
-		}
-		if !ok {
-			if data != nil {
-				return fmt.Sprintf("ghost|%s: Data(%d) returns %d chunks for a stream that was never stored or was invalidated", what, id, len(data))
-			}
-			d2, _, _, _, found, err := c.DataForSearch(id)
-			if err != nil || found || len(d2[0])+len(d2[1]) != 0 {
-				return fmt.Sprintf("ghost|%s: DataForSearch(%d) found=%v err=%v", what, id, found, err)
-			}
-			continue
-		}
-		if data == nil {
-			return fmt.Sprintf("lost|%s: Data(%d) returns nothing, model has %d chunks", what, id, len(want))
-		}
-		ne := nonEmpty(want)
-		var got []index.Data
-		for _, d := range data {
-			if len(d.Content) > 0 {
-				got = append(got, d)
-			}
-		}
-		if len(got) != len(ne) {
-			return fmt.Sprintf("chunks|%s: stream %d has %d non-empty chunks, stored %d", what, id, len(got), len(ne))
-		}
-		var wc, ws uint64
-		for i := range ne {
-			g, w := got[i], ne[i]
-			if int(g.Direction) != w.dir {
-				return fmt.Sprintf("direction|%s: stream %d chunk %d direction %d, stored %d", what, id, i, g.Direction, w.dir)
-			}
-			if !bytes.Equal(g.Content, w.data) {
-				return fmt.Sprintf("bytes|%s: stream %d chunk %d content differs (%d vs %d bytes)", what, id, i, len(g.Content), len(w.data))
-			}
-			if !g.Time.Equal(w.t) {
-				return fmt.Sprintf("time|%s: stream %d chunk %d time %v, stored %v", what, id, i, g.Time.Sub(base), w.t.Sub(base))
-			}
-			if g.ContentType != w.ct {
-				return fmt.Sprintf("content-type|%s: stream %d chunk %d content type %q, stored %q", what, id, i, g.ContentType, w.ct)
-			}
-			if w.dir == 0 {
-				wc += uint64(len(w.data))
-			} else {
-				ws += uint64(len(w.data))
-			}
-		}
-		if cb != wc || sb != ws {
-			return fmt.Sprintf("byte-counts|%s: stream %d byte counts %d/%d, stored %d/%d", what, id, cb, sb, wc, ws)
-		}
-		d2, sizes, cb2, sb2, found, err := c.DataForSearch(id)
-		if err != nil || !found {
-			return fmt.Sprintf("search-read|%s: DataForSearch(%d) found=%v err=%v", what, id, found, err)
-		}
-		var wantD [2][]byte
-		wantSizes := [][2]int{{0, 0}}
-		for _, w := range ne {
-			wantD[w.dir] = append(wantD[w.dir], w.data...)
-			wantSizes = append(wantSizes, [2]int{len(wantD[0]), len(wantD[1])})
-		}
-		if !bytes.Equal(d2[0], wantD[0]) || !bytes.Equal(d2[1], wantD[1]) || cb2 != wc || sb2 != ws {
-			return fmt.Sprintf("search-bytes|%s: DataForSearch(%d) payload differs", what, id)
-		}
-		if fmt.Sprint(sizes) != fmt.Sprint(wantSizes) {
-			return fmt.Sprintf("search-layout|%s: DataForSearch(%d) chunk layout %v, stored %v", what, id, sizes, wantSizes)
+		if msg := compareID(c, id, want, ok, what); msg != "" {
+			return msg
 		}
 	}
 	return ""
+}
+
+// compareID compares everything the cache says about one stream with the
+// expected chunk list (ok=false: the stream must be absent).
+func compareID(c *converters.VerifCache, id uint64, want []mchunk, ok bool, what string) string {
+	if c.Contains(id) != ok {
+		return fmt.Sprintf("contains|%s: Contains(%d)=%v, model %v", what, id, !ok, ok)
+	}
+	data, cb, sb, err := c.Data(id, base)
+	if err != nil {
+		return fmt.Sprintf("read-error|%s: Data(%d): %v", what, id, err)
+	}
+	if !ok {
+		if data != nil {
+			return fmt.Sprintf("ghost|%s: Data(%d) returns %d chunks for a stream that was never stored or was invalidated", what, id, len(data))
+		}
+		d2, _, _, _, found, err := c.DataForSearch(id)
+		if err != nil || found || len(d2[0])+len(d2[1]) != 0 {
+			return fmt.Sprintf("ghost|%s: DataForSearch(%d) found=%v err=%v", what, id, found, err)
+		}
+		return ""
+	}
+	if data == nil {
+		return fmt.Sprintf("lost|%s: Data(%d) returns nothing, model has %d chunks", what, id, len(want))
+	}
+	ne := nonEmpty(want)
+	var got []index.Data
+	for _, d := range data {
+		if len(d.Content) > 0 {
+			got = append(got, d)
+		}
+	}
+	if len(got) != len(ne) {
+		return fmt.Sprintf("chunks|%s: stream %d has %d non-empty chunks, stored %d", what, id, len(got), len(ne))
+	}
+	var wc, ws uint64
+	for i := range ne {
+		g, w := got[i], ne[i]
+		if int(g.Direction) != w.dir {
+			return fmt.Sprintf("direction|%s: stream %d chunk %d direction %d, stored %d", what, id, i, g.Direction, w.dir)
+		}
+		if !bytes.Equal(g.Content, w.data) {
+			return fmt.Sprintf("bytes|%s: stream %d chunk %d content differs (%d vs %d bytes)", what, id, i, len(g.Content), len(w.data))
+		}
+		if !g.Time.Equal(w.t) {
+			return fmt.Sprintf("time|%s: stream %d chunk %d time %v, stored %v", what, id, i, g.Time.Sub(base), w.t.Sub(base))
+		}
+		if g.ContentType != w.ct {
+			return fmt.Sprintf("content-type|%s: stream %d chunk %d content type %q, stored %q", what, id, i, g.ContentType, w.ct)
+		}
+		if w.dir == 0 {
+			wc += uint64(len(w.data))
+		} else {
+			ws += uint64(len(w.data))
+		}
+	}
+	if cb != wc || sb != ws {
+		return fmt.Sprintf("byte-counts|%s: stream %d byte counts %d/%d, stored %d/%d", what, id, cb, sb, wc, ws)
+	}
+	d2, sizes, cb2, sb2, found, err := c.DataForSearch(id)
+	if err != nil || !found {
+		return fmt.Sprintf("search-read|%s: DataForSearch(%d) found=%v err=%v", what, id, found, err)
+	}
+	var wantD [2][]byte
+	wantSizes := [][2]int{{0, 0}}
+	for _, w := range ne {
+		wantD[w.dir] = append(wantD[w.dir], w.data...)
+		wantSizes = append(wantSizes, [2]int{len(wantD[0]), len(wantD[1])})
+	}
+	if !bytes.Equal(d2[0], wantD[0]) || !bytes.Equal(d2[1], wantD[1]) || cb2 != wc || sb2 != ws {
+		return fmt.Sprintf("search-bytes|%s: DataForSearch(%d) payload differs", what, id)
+	}
+	if fmt.Sprint(sizes) != fmt.Sprint(wantSizes) {
+		return fmt.Sprintf("search-layout|%s: DataForSearch(%d) chunk layout %v, stored %v", what, id, sizes, wantSizes)
+	}
+	return ""
+}
+
+func timeStep(ch Chunk) time.Duration { return time.Duration(ch.DtUS) * time.Microsecond }
+
+func copyModel(m map[uint64][]mchunk) map[uint64][]mchunk {
+	c := make(map[uint64][]mchunk, len(m))
+	for k, v := range m {
+		c[k] = v
+	}
+	return c
 }
 
 func hasZero(cs []Chunk) bool {
@@ -273,15 +307,30 @@ func (Engine) Execute(planJSON json.RawMessage, scratch string) (res sim.RunResu
 	}()
 	model := map[uint64][]mchunk{}
 	knownDead := false // a known finding made the file state diverge: stop judging this run
+	crashRng := sim.NewRand(p.CrashSeed, 5)
 	for oi, op := range p.Ops {
 		what := fmt.Sprintf("after op %d (%s)", oi, op.K)
+		var cr *crashRec
+		var before map[uint64][]mchunk
+		if p.Crash && !knownDead {
+			before = copyModel(model)
+			cr = newCrashRec(path, crashRng)
+			simrt.SetIOHook(cr.hook)
+			simrt.ArmIO(true)
+		}
+		endCrash := func() {
+			if cr != nil && simrt.IOArmed() {
+				simrt.ArmIO(false)
+				cr.observe("end of operation")
+			}
+		}
 		switch op.K {
 		case "store":
 			var data []index.Data
 			var mc []mchunk
 			t := base
 			for _, ch := range op.Chunks {
-				t = t.Add(time.Duration(ch.DtUS) * time.Microsecond)
+				t = t.Add(timeStep(ch))
 				b := payload(ch)
 				data = append(data, index.Data{Direction: index.Direction(ch.Dir), Content: b, Time: t, ContentType: ch.CT})
 				mc = append(mc, mchunk{ch.Dir, b, t, ch.CT})
@@ -298,6 +347,7 @@ func (Engine) Execute(planJSON json.RawMessage, scratch string) (res sim.RunResu
 				viol(fmt.Sprintf("store-error|%s: SetData(%d): %v", what, op.ID, err))
 				return
 			}
+			endCrash()
 			model[op.ID] = mc
 			res.Count("op_store", 1)
 			sizeAfter, _, _ := c.Sizes()
@@ -311,7 +361,7 @@ func (Engine) Execute(planJSON json.RawMessage, scratch string) (res sim.RunResu
 				}
 				knownDead = true
 			}
-			if p.Truncate && !knownDead && sizeAfter > sizeBefore {
+			if p.Truncate && !knownDead && sizeAfter > sizeBefore && (cr == nil || crashRng.IntN(2) == 0) {
 				// crash while appending: the file may end at any byte of the new record
 				full, err := os.ReadFile(path)
 				if err != nil || int64(len(full)) != sizeAfter {
@@ -338,7 +388,15 @@ func (Engine) Execute(planJSON json.RawMessage, scratch string) (res sim.RunResu
 					break
 				}
 				sv := simrt.Save()
+				// every cut position inside the structured parts of the record (header and
+				// chunk sizes at its start, times and content types at its end); inside a
+				// long payload body every cut is the same case ("payload ends early") and
+				// a seeded sample is taken, so that the budget goes into more histories
+				recLen := sizeAfter - sizeBefore
 				for cut := sizeBefore; cut < sizeAfter; cut++ {
+					if off := cut - sizeBefore; recLen > 320 && off >= 128 && off < recLen-128 && crashRng.IntN(int(recLen-256)) >= 24 {
+						continue
+					}
 					tp := filepath.Join(scratch, "trunc.cidx")
 					os.WriteFile(tp, append(append([]byte(nil), pre...), full[sizeBefore:cut]...), 0o644)
 					tc, err := converters.VerifNewCacheFile(tp)
@@ -403,6 +461,7 @@ func (Engine) Execute(planJSON json.RawMessage, scratch string) (res sim.RunResu
 			what += " reopened"
 			res.Count("fault_reopen", 1)
 		}
+		endCrash()
 		if knownDead {
 			break
 		}
@@ -415,6 +474,27 @@ func (Engine) Execute(planJSON json.RawMessage, scratch string) (res sim.RunResu
 				return
 			}
 			break
+		}
+		if cr != nil {
+			affected := map[uint64]bool{}
+			all := false
+			switch op.K {
+			case "store":
+				affected[op.ID] = true
+			case "invalidate":
+				for _, id := range op.IDs {
+					affected[id] = true
+				}
+			case "reset":
+				all = true
+			}
+			if msg := judgeCrashStates(&res, p.Prop, scratch, cr, before, model, affected, all, p.Ops[oi+1:], fmt.Sprintf("during op %d (%s)", oi, op.K)); msg != "" {
+				viol(msg)
+				if res.Viol != nil {
+					return
+				}
+				break
+			}
 		}
 	}
 	res.SchedSig = sim.Hash(string(planJSON))
